@@ -301,7 +301,11 @@ def dataclass(  # noqa: C901,D417 # pylint: disable=function-redefined,too-many-
         raise ValueError('The namespace cannot be an empty string.')
 
     cls = dataclasses.dataclass(cls, **kwargs)  # type: ignore[assignment]
+    return _register_dataclass(cls, namespace=namespace)
 
+
+def _register_dataclass(cls: _TypeT, /, *, namespace: str) -> _TypeT:
+    """Register a class that is already processed by :func:`dataclasses.dataclass` as a pytree node."""
     children_fields = {}
     metadata_fields = {}
     for f in dataclasses.fields(cls):
@@ -458,6 +462,7 @@ def make_dataclass(  # type: ignore[no-redef] # noqa: C901,D417
         **dataclass_kwargs,  # type: ignore[arg-type]
         **make_dataclass_kwargs,  # type: ignore[arg-type]
     )
-    dataclass_kwargs.pop('slots', None)  # already defined in `make_dataclass()`
-    dataclass_kwargs.pop('weakref_slot', None)  # already used in `make_dataclass()`
-    return dataclass(cls, **dataclass_kwargs, namespace=namespace)  # type: ignore[call-overload]
+    # NOTE: the class is already processed by `dataclasses.make_dataclass()`. Processing it again
+    # with `dataclasses.dataclass()` would rebuild the fields from the class attributes and lose
+    # the field options (e.g., `init=False` or `pytree_node=False`).
+    return _register_dataclass(cls, namespace=namespace)
